@@ -100,6 +100,8 @@ func execLine(line string) (out string) {
 		return opHist(f[1:])
 	case "use":
 		return opUse(f[1:])
+	case "hacc":
+		return opHAcc(f[1:])
 	}
 	return "harness-error unknown op " + f[0]
 }
@@ -333,12 +335,21 @@ func opS1(a []string) string {
 	detach := a[5] == "d"
 
 	var sb strings.Builder
-	err := m.Sign(rand.Reader, ext, signer)
+	var err, verr error
+	if tagged {
+		err = m.Sign(rand.Reader, ext, signer)
+	} else {
+		err = (*cose.UntaggedSign1Message)(m).Sign(rand.Reader, ext, signer)
+	}
 	sb.WriteString("sign=" + errClass(err))
 	sb.WriteString(" st=" + dumpSign1(m))
 	sb.WriteString(" tbs=" + hexList(log.tbs))
 	// in-memory verification
-	verr := m.Verify(ext, verifier)
+	if tagged {
+		verr = m.Verify(ext, verifier)
+	} else {
+		verr = (*cose.UntaggedSign1Message)(m).Verify(ext, verifier)
+	}
 	sb.WriteString(" mver=" + errClass(verr))
 	payload := m.Payload
 	if detach {
@@ -706,4 +717,43 @@ func opHEV(a []string) string {
 		return "ver=" + plainErr(err)
 	}
 	return "ver=ok " + dumpSign1(m)
+}
+
+// hacc PMAP TYP CLAIMS : accessors and setters of ProtectedHeader
+func opHAcc(a []string) string {
+	p := &parser{s: a[0]}
+	h := cose.ProtectedHeader(p.optMap())
+	p.done()
+	pt := &parser{s: a[1]}
+	typ := pt.value()
+	pt.done()
+	pc := &parser{s: a[2]}
+	claims := cose.CWTClaims(pc.optMap())
+	pc.done()
+	var sb strings.Builder
+	alg, err := h.Algorithm()
+	sb.WriteString("alg=" + classOrAlg(alg, err))
+	ha, err := h.PayloadHashAlgorithm()
+	sb.WriteString(" pha=" + classOrAlg(ha, err))
+	crit, err := h.Critical()
+	if err != nil {
+		sb.WriteString(" crit=err")
+	} else if crit == nil {
+		sb.WriteString(" crit=absent")
+	} else {
+		sb.WriteString(" crit=" + dumpValue(crit))
+	}
+	if h == nil {
+		h = cose.ProtectedHeader{}
+	}
+	_, err = h.SetType(typ)
+	sb.WriteString(" settype=" + plainErr(err))
+	_, err = h.SetCWTClaims(claims)
+	sb.WriteString(" setcwt=" + plainErr(err))
+	// CWTClaims is a named map type: show it as a plain map
+	if c, ok := h[cose.HeaderLabelCWTClaims].(cose.CWTClaims); ok {
+		h[cose.HeaderLabelCWTClaims] = map[any]any(c)
+	}
+	sb.WriteString(" after=" + dumpMap(h))
+	return sb.String()
 }
